@@ -14,8 +14,11 @@ No panic under the stated preconditions: not both operands constant, and/or neve
 constructors of `Context` establish: constant folding, and/or collapse - unit `context`), the operand of a unary node is not a constant,
 variable indices fit in u32.
 
-NOT proved (bounded contract `flatten` only): the graph walk of SsaTape::new around this block - the DFS that assigns slots and counts
-parents, the parent-count driven topological order, the output clauses.  This unit pins the opcode table and the operand order; the order
+Also proved: the loop over the roots that emits the output clauses (second block: `outputs`): root k gives Output(its register, k), a
+constant root a fresh slot with Output + CopyImm, in root order.
+
+NOT proved (bounded contract `flatten` only): the graph walk of SsaTape::new around these blocks - the DFS that assigns slots and counts
+parents, the parent-count driven topological order.  This unit pins the opcode table and the operand order; the order
 of the clauses stays an assumption of C01/C04/C20.
 
 Rewrites: R-block; R-table3 (the tuple of three constructor function pointers / panicking closures selected by opcode, then applied by
@@ -27,6 +30,7 @@ from lib.rsx import ExtractError
 from lib.verus_engine import Injector, Obligation
 from units.alloc.gen_sem import split_variant
 from units.vm import spec as VS
+from lib.weave import weave, GMARK, LostAnchor
 
 SRC = 'fidget-core/src/compiler/ssa_tape.rs'
 OP_RS = 'fidget-core/src/context/op.rs'
@@ -172,6 +176,29 @@ def build(repo, trace):
     trace.fire('R-block')
     trace.items.append((SRC, 'SsaTape::new: the per-node translation block (as the function emit of its own; mapping[..] / vars[..] lookups become parameters)'))
     trace.drop('the rest of SsaTape::new (graph walk, slot assignment, parent counts, output clauses): bounded contract flatten only')
+    # ---- the output clauses: the loop over the roots, as a function of its own (R-block)
+    outs = ''
+    try:
+        mo = re.search(r'\n( *)for \(i, r\) in roots\.iter\(\)\.enumerate\(\) \{\n', body)
+        if not mo:
+            raise ExtractError('SsaTape::new: the loop over the roots changed')
+        o0 = body.index('{', mo.start() + 1 + len(mo.group(1)))
+        o1 = rsx.match_brace(body, o0)
+        loop = body[mo.start() + 1:o1 + 1]
+        loop = loop.replace('for (i, r) in roots.iter().enumerate() {', 'for i_ in 0..root_slots.len() {\n' + mo.group(1) + '    let i = i_;   // R-enumerate', 1)
+        loop, n = re.subn(r'\bmapping\[r\]', 'root_slots[i_]', loop)
+        if n != 1:
+            raise ExtractError('SsaTape::new: the lookup of the root slot changed')
+        trace.fire('R-enumerate'); trace.fire('R-hashindex')
+        real = ('fn outputs(root_slots: &Vec<Slot>, slot_count0: u32) -> (r: (Vec<SsaOp>, u32))\n{\n    let mut slot_count = slot_count0;\n    let mut tape = Vec::new();\n'
+                + '\n'.join(l[4:] if l.startswith('        ') else l for l in loop.split('\n')) + '\n    (tape, slot_count)\n}')
+        outs, m_, n_ = weave(OUTS_TMPL, real, 'SsaTape::new[output clauses]')
+        if m_ != n_:
+            trace.fire('weave-unmatched-lines', n_ - m_)
+        trace.items.append((SRC, 'SsaTape::new: the loop that emits the output clauses (as the function outputs of its own; the mapping lookups of the roots become a parameter)'))
+    except (ExtractError, LostAnchor) as e:
+        trace.lost.setdefault('outputs', []).append('not extracted: %s' % e)
+        outs = ''
     # ---- specification text
     un_enum = '#[derive(Copy, Clone)]\npub enum UnaryOpcode { ' + ', '.join(un_names) + ' }'
     bin_enum = '#[derive(Copy, Clone)]\npub enum BinaryOpcode { ' + ', '.join(bin_names) + ' }'
@@ -288,13 +315,56 @@ pub open spec fn is_choice_opcode(o: BinaryOpcode) -> bool { matches!(o, BinaryO
             ssa_choice(r) == (op is Binary && is_choice_opcode(op->Binary_0)),
             *final(choice_count) == *old(choice_count) + (if ssa_choice(r) { 1int } else { 0int }),
 '''
-    text = ('use vstd::prelude::*;\nuse vstd::std_specs::ops::*;\nuse vstd::std_specs::cmp::*;\nverus! {\n' + un_enum + '\n' + bin_enum + '\n' + '\n'.join(ssa) + '\n' + static + '\n' + fn + '\n} // verus!\nfn main() {}\n')
+    text = ('use vstd::prelude::*;\nuse vstd::std_specs::ops::*;\nuse vstd::std_specs::cmp::*;\nverus! {\n' + un_enum + '\n' + bin_enum + '\n' + '\n'.join(ssa) + '\n' + static + '\n' + fn + '\n' + (OUTS_SPEC + outs if outs else '') + '\n} // verus!\nfn main() {}\n')
     inj = Injector(text, trace)
     inj.spec('emit', None, spec)
     obls = [Obligation('flatten::SsaTape::new[translation block]', 'flatten', 'emit', props=PROPS, rlimit=50,
                        note='per-node opcode table and operand order of SsaTape::new against the reference meanings of units vm and context')]
-    return {'texts': {'base': inj.s}, 'obligations': obls, 'canary_fns': ['emit'], 'verus_args': ['--edition=2024']}
+    if outs:
+        obls.append(Obligation('flatten::SsaTape::new[output clauses]', 'flatten', 'outputs', props=['C01', 'C04'], note='root k gives Output(its register, k), a constant root a fresh slot with Output + CopyImm: output order and indices'))
+    return {'texts': {'base': inj.s}, 'obligations': obls, 'canary_fns': ['emit'] + (['outputs'] if outs else []), 'verus_args': ['--edition=2024']}
 
 
 def norm(s):
     return re.sub(r'\s+', '', s)
+
+
+OUTS_SPEC = """
+/// the clauses for the first n roots: root k gives Output(its register, k), or - a constant root - Output(a fresh slot, k) followed by
+/// CopyImm(that slot, the constant); fresh slots are handed out in order from s0
+pub open spec fn outs_spec(slots: Seq<Slot>, s0: int, n: int) -> (Seq<SsaOp>, int)
+    decreases n
+{
+    if n <= 0 { (Seq::empty(), s0) } else {
+        let (t, s) = outs_spec(slots, s0, n - 1);
+        match slots[n - 1] {
+            Slot::Reg(r) => (t.push(SsaOp::Output(r, (n - 1) as u32)), s),
+            Slot::Immediate(c) => (t.push(SsaOp::Output(s as u32, (n - 1) as u32)).push(SsaOp::CopyImm(s as u32, c)), s + 1),
+        }
+    }
+}
+"""
+OUTS_TMPL = """fn outputs(root_slots: &Vec<Slot>, slot_count0: u32) -> (r: (Vec<SsaOp>, u32))
+/*G*/    requires root_slots@.len() + slot_count0 <= u32::MAX,
+/*G*/    ensures r.0@ == outs_spec(root_slots@, slot_count0 as int, root_slots@.len() as int).0, r.1 == outs_spec(root_slots@, slot_count0 as int, root_slots@.len() as int).1,
+{
+    let mut slot_count = slot_count0;
+    let mut tape = Vec::new();
+    for i_ in 0..root_slots.len()
+/*G*/        invariant root_slots@.len() + slot_count0 <= u32::MAX, slot_count0 <= slot_count <= slot_count0 + i_,
+/*G*/            tape@ == outs_spec(root_slots@, slot_count0 as int, i_ as int).0, slot_count == outs_spec(root_slots@, slot_count0 as int, i_ as int).1,
+    {
+        let i = i_;   // R-enumerate
+        let i = i as u32;
+        match root_slots[i_] {
+            Slot::Reg(out_reg) => tape.push(SsaOp::Output(out_reg, i)),
+            Slot::Immediate(imm) => {
+                let o = slot_count;
+                slot_count += 1;
+                tape.push(SsaOp::Output(o, i));
+                tape.push(SsaOp::CopyImm(o, imm));
+            }
+        }
+    }
+    (tape, slot_count)
+}""".replace('/*G*/', GMARK)
